@@ -179,10 +179,10 @@ fn generate_method_params(
         }
 
         // Add lifetime if needed
-        let generics_decl = if !combined_generics.is_empty() {
+        let generics_decl = if has_any_lifetime && !has_explicit_lifetimes {
+            quote! { <'__proxy_params, #combined_generics> }
+        } else if !combined_generics.is_empty() {
             quote! { <#combined_generics> }
-        } else if has_any_lifetime && !has_explicit_lifetimes {
-            quote! { <'__proxy_params> }
         } else {
             quote! {}
         };
